@@ -967,8 +967,13 @@ def none_default_discipline(ctx: Context, rule: str, qualnames: Iterable[str]) -
                           construct=f"{fi.short}: {name} = {norm_text(st.value)[:50]} under {'`' + name + ' is None`' if is_none else ('`' + name + ' is not None`' if not_none else 'no test of ' + name)}")
             else:
                 # (another optional parameter that WAS given may take precedence: `axis` over `linear_dimension`)
-                sibling = any((f"{o} is not None", True) in fs or (f"{o} is None", False) in fs for o in none_params - {name}
-                              if any(isinstance(n, ast.Name) and n.id == o for n in ast.walk(st.value)))
+                read_others = {o for o in none_params - {name} if any(isinstance(n, ast.Name) and n.id == o for n in ast.walk(st.value))}
+                sibling = any((f"{o} is not None", True) in fs or (f"{o} is None", False) in fs for o in read_others)
+                if not sibling and read_others:
+                    # `if latitude is not None or longitude is not None: topology = cls(latitude=latitude, longitude=longitude)`: one of the siblings was given
+                    cls_: list = []
+                    facts(ctx, fi, st, expand=False, clauses_out=cls_)
+                    sibling = any(cl and all(any((pol and t == f"{o} is not None") or ((not pol) and t == f"{o} is None") for o in read_others) for t, pol in cl) for cl in cls_)
                 for o in sorted(none_params - {name}):
                     if any(isinstance(n, ast.Name) and n.id == o and isinstance(n.ctx, ast.Load) for n in ast.walk(st.value)):
                         o_none = (f"{o} is None", True) in fs or (f"{o} is not None", False) in fs
@@ -1054,6 +1059,22 @@ def cf_coordinate_markers(ctx: Context, rule: str) -> None:
             var = norm_text(tgt.elts[1]) if isinstance(tgt, ast.Tuple) and len(tgt.elts) == 2 else f"self.dataset[{key}]"
             attrs = rf"(?:{_re.escape(var)}|self\.dataset\[{_re.escape(key)}\]|self\.dataset\.variables\[{_re.escape(key)}\])\.attrs"
             want = {rf"{attrs}\.get\('units'\) in {units}", rf"{attrs}\.get\('standard_name'\) == '{std}'", rf"{attrs}\.get\('axis'\) == '{axis}'"}
+            # the three markers may come out of a table (`units, standard_name, axis = _MARKERS['latitude']`): such names are spelled out
+            subst = {}
+            flow_ = ctx.flow(fi)
+            for n_ in ast.walk(fi.node):
+                if isinstance(n_, ast.Assign) and len(n_.targets) == 1 and isinstance(n_.targets[0], ast.Tuple) and all(isinstance(e, ast.Name) for e in n_.targets[0].elts):
+                    row = n_.value
+                    if isinstance(row, ast.Subscript) and isinstance(row.value, ast.Name) and mod is not None and row.value.id in mod.assigns and isinstance(mod.assigns[row.value.id], ast.Dict):
+                        k_ = const_value(row.slice, None)
+                        for dk, dv in zip(mod.assigns[row.value.id].keys, mod.assigns[row.value.id].values):
+                            if dk is not None and const_value(dk, object()) == k_:
+                                row = dv
+                    if isinstance(row, ast.Tuple) and len(row.elts) == len(n_.targets[0].elts):
+                        for t_, v_ in zip(n_.targets[0].elts, row.elts):
+                            subst[t_.id] = norm_text(v_)
+            if subst:
+                cls = [[(_re.sub(r"\b(" + "|".join(_re.escape(k) for k in subst) + r")\b", lambda m_: subst[m_.group(1)], t), pol) for t, pol in cl] for cl in cls]
             marker_clauses = []
             for cl in cls:
                 texts = [t for t, pol in cl if pol]
